@@ -804,7 +804,11 @@ def check_hist(case, t):
     sig = "cw.history"
     epoch = Date(*EPOCH)
     M3 = hill.P3 if orient == "TNW" else np.eye(3)
-    step = us(q_end / 4)
+    # iteration grid in integer microseconds: the step is exact in us and the span is exactly 4 steps, so the
+    # inclusive range handed to the library has exactly 5 dates (q_end / 4 rounded to the us could overshoot the stop by 1 us)
+    step_us = int(round(q_end * 1e6)) // 4
+    span = timedelta(microseconds=4 * step_us)
+    step_td = timedelta(microseconds=step_us)
     cache = {}
 
     def fresh(q):
@@ -859,14 +863,16 @@ def check_hist(case, t):
                 bound0 = np.array(prop.orbit, dtype=float)
             elif op[0] in ("iter", "ephem"):
                 if op[0] == "iter":
-                    pts = list(orb.iter(stop=timedelta(seconds=q_end), step=timedelta(seconds=step)))
+                    pts = list(orb.iter(stop=span, step=step_td))
                 else:
-                    pts = list(orb.ephem(stop=timedelta(seconds=q_end), step=timedelta(seconds=step)))
+                    pts = list(orb.ephem(stop=span, step=step_td))
                 t.trans(len(pts))
                 bound_obj = prop.orbit
                 bound0 = np.array(prop.orbit, dtype=float)
-                if len(pts) != 5:
-                    t.fail(sig + "/iter-count", "iter yields start..stop inclusive", case, 5, len(pts))
+                offs = [round((r.date - epoch).total_seconds() * 1e6) for r in pts]
+                if offs != [k * step_us for k in range(5)]:
+                    t.fail(sig + "/iter-dates", "iter yields start, start+step, ... stop inclusive", case,
+                           [k * step_us for k in range(5)], offs, "offsets in microseconds")
                 for r in pts:
                     q = us((r.date - epoch).total_seconds())
                     ok &= compare(r, q, i, "Orbit." + op[0])
